@@ -66,6 +66,20 @@ for k, v in H.items():
     c, text, note, tech, ref = T[k]
     T[k] = (c, text + v, note, tech, ref)
 
+# round i additions
+I = {
+ "C02": " Round i: the block index is read from the store for every block (no counter carried across the rounds of a pass); the commit callback runs exactly once per block.",
+ "C03": " Round i: every event of every processed round is recorded as a consensus event; block numbers read per block.",
+ "C04": " Round i: core.commit invokes the commit callback exactly once per block.",
+ "C11": " Round i: Bootstrap returns only errors of its callees (no acceptance decision of its own about the database).",
+ "C12": " Round i: core.fastForward returns nil only after CheckBlock==nil, the frame-hash comparison and hg.Reset.",
+ "C13": " Round i: every event of every processed round is recorded as a consensus event, payload or not.",
+ "C14": " Round i: nil from core.fastForward means verified and adopted (C14.accept).",
+}
+for k, v in I.items():
+    c, text, note, tech, ref = T[k]
+    T[k] = (c, text + v, note, tech, ref)
+
 NA = {
  "C06": "Liveness under fair gossip quantifies over unbounded fair schedules and asserts a bound on exchanges until idle; no clause is visible in the shape of the code (termination of virtual voting is semantic/probabilistic). Static analysis in reach cannot bound it (DESIGN.md §5).",
 }
